@@ -53,6 +53,27 @@ def random_case(rng, pipes=None):
     return mk(rng.choice(pipes or c12.PIPE_IDS), rows, sizes)
 
 
+def cancellation_case(rng, pipes=None):
+    """float data whose running sums lose low-order bits (a huge value enters and later leaves again, small ones arrive
+    in between): a resumed run must still reproduce the uninterrupted one bit for bit.  Oracle only (the Coq model is
+    over exact rationals)."""
+    big = rng.choice([1e16, 1e15, 3e16])
+    vals = [big] + [rng.choice([1.0, 1.0, 0.5, 0.25, 3.0]) for _ in range(rng.randint(1, 4))] + [-big] + \
+           [rng.choice([0.5, 0.25, 1.0]) for _ in range(rng.randint(1, 3))]
+    rows = [[v, rng.choice([1.0, 2.0, -1.0]), rng.choice([1, 1, 2])] for v in vals]
+    sizes = [1] * len(rows) if rng.random() < 0.6 else [rng.choice([1, 2]) for _ in rows]
+    tot, out_sizes = 0, []
+    for s_ in sizes:
+        if tot >= len(rows):
+            break
+        s_ = min(s_, len(rows) - tot)
+        out_sizes.append(s_)
+        tot += s_
+    c = mk(rng.choice(pipes or c12.PIPE_IDS), rows, out_sizes)
+    c["nocoq"] = True
+    return c
+
+
 def gen_cases(tier, rng):
     T = ci.TABLES
     thorough = tier == "thorough"
@@ -72,6 +93,8 @@ def gen_cases(tier, rng):
         cases.append(mk(p, T["dense"], [3, 2], ex="row"))
     for _ in range(300 if not thorough else 5000):
         cases.append(random_case(rng))
+    for _ in range(150 if not thorough else 2000):
+        cases.append(cancellation_case(rng))
     return cases
 
 
@@ -140,7 +163,7 @@ def run(prop, tier, seed, replay=None):
     # ---- Coq correspondence for the modelled operators: resumed run vs the model
     items = []
     for c, r in zip(cases, res):
-        if r.get("coq") is None:
+        if r.get("coq") is None or c.get("nocoq"):
             continue
         c06case = {"agg": c12.PIPES[c["pipe"]]["c06"], "rows": c["rows"], "sizes": c["sizes"], "filt": None}
         for k, resumed in sorted(r["coq"]["resumed"].items()):
